@@ -140,6 +140,13 @@ pub fn check_value(v: &sonic_rs::Value, m: &J, what: &str) -> Result<(), Violati
             return Err(mismatch(what, "as_ref()", format!("ValueRef::{} (or its content / length)", kind), m.canon()));
         }
     }
+    // the raw-number view: None, or the literal the number was written with
+    if let Some(r) = sonic_rs::JsonValueTrait::as_raw_number(v) {
+        match m {
+            J::Num(lit) if r.as_str() == lit => {}
+            _ => return Err(mismatch(what, "as_raw_number", format!("Some({:?})", truncate(r.as_str())), m.canon())),
+        }
+    }
     // equality with plain Rust values, both ways round
     let eq_ok = match m {
         J::Null => !(*v == false) && !(*v == "") && !(*v == 0u64) && !(0i64 == *v),
